@@ -127,7 +127,7 @@ pub fn type_of(c: &Constant) -> Type {
     Type::from(c)
 }
 
-fn gen_const_of(src: &mut Src, ty: &Type, depth: usize) -> Constant {
+pub fn gen_const_of(src: &mut Src, ty: &Type, depth: usize) -> Constant {
     match ty {
         Type::Integer => Constant::Integer(consts::gen_int(src, true)),
         Type::ByteString => Constant::ByteString(consts::gen_bytes(src, false)),
